@@ -10,6 +10,8 @@
   above `len(remaining)` plus a small constant; a model error corresponds to `Err.panic` (`in.Error` panics).
 -/
 import ModVerif.Proofs.TieFnLexA
+set_option linter.unusedSimpArgs false
+set_option linter.unusedVariables false
 namespace ModVerif.TieFnLex
 open ModVerif ModVerif.GoRt ModVerif.GoRtStr ModVerif.GoRtModfile ModVerif.GoRtLex ModVerif.Modfile
 open ModVerif.Proofs.ModfileLex (eof_false_iff)
